@@ -184,3 +184,20 @@ def _f20(f, pid, case, clause, ctx):
         return False
     txt = case.get("detail", "") + case.get("err", "") + str(case.get("opt_err", "")) + str(case.get("raw_err", ""))
     return "IndexError" in txt and "tuple index out of range" in txt
+
+
+@matcher("generic_dask_optimizer_renames_outputs")
+def _f01(f, pid, case, clause, ctx):
+    """C05: dask.optimize(x) / dask.persist(x) hand the raw expression to dask's generic optimizer; when that renames the
+    output keys, from_graph has to guess the output blocks and raises or picks an intermediate layer."""
+    if case.get("fn") != "entry" or case.get("generic_graph_is_own_graph") == 1:
+        return False
+    bad = set()
+    ref = case["entries"][0]["val"]
+    for e in case["entries"]:
+        v = e["val"]
+        if v["kind"] in ("raised", "o") or v["shape"] != ref["shape"] or v["data"] != ref["data"] or v["kind"] != ref["kind"]:
+            bad.add(e["entry"])
+        elif e["keeps"] and (e["chunks"] != case["adv"]["chunks"] or e["name"] != case["adv"]["name"] or e["dtype"] != case["adv"]["dtype"]):
+            bad.add(e["entry"])
+    return bool(bad) and bad <= set(f["params"]["entries"])
